@@ -26,6 +26,8 @@ pub struct PW<'a> {
     /// the next deposit names its receiver by this (unparseable) string; the contract falls back to the sender, which is what
     /// the event then says ("receiver": "none")
     pub raw_receiver: Option<String>,
+    /// the next `update_config` also re-points the fee collector to this account
+    pub next_fee_collector: Option<Addr>,
 }
 
 pub fn fees(protocol: u64, swap: u64, burn: u64, extra: &[u64]) -> PoolFee {
@@ -78,7 +80,7 @@ impl<'a> PW<'a> {
         let mask = Mask { pools: true, farms: true, epoch: true, owners: false };
         let st = s.snapshot(mask);
         t.reset(name, st);
-        PW { s, t, mask, model_note: None, watch: vec![], watch_denoms: vec![], base: vec![], raw_receiver: None }
+        PW { s, t, mask, model_note: None, watch: vec![], watch_denoms: vec![], base: vec![], raw_receiver: None, next_fee_collector: None }
     }
     pub fn user(&self, i: usize) -> Addr {
         self.s.users[i].clone()
@@ -268,7 +270,7 @@ impl<'a> PW<'a> {
         self.t.emit("q_pages", json!({"what": "pools", "limit": limit, "all": all, "paged": paged, "page_sizes": sizes}));
     }
     pub fn update_config(&mut self, sender: &Addr, toggle: Option<pm::FeatureToggle>, fee: Option<Coin>, funds: &[Coin], what: &str) -> bool {
-        let m = pm::ExecuteMsg::UpdateConfig { fee_collector_addr: None, farm_manager_addr: None, pool_creation_fee: fee, feature_toggle: toggle.clone() };
+        let m = pm::ExecuteMsg::UpdateConfig { fee_collector_addr: self.next_fee_collector.take().map(|a| a.to_string()), farm_manager_addr: None, pool_creation_fee: fee, feature_toggle: toggle.clone() };
         let r = self.s.exec_pm_guarded(sender, &m, funds);
         let tj = match &toggle {
             Some(t) => json!({"set": true, "pool": t.pool_identifier,
@@ -380,6 +382,10 @@ fn sc_create_pool_classes(t: &mut Tracer, cfg: SysCfg, name: &str) {
     extra1.push(coin(1, "uusd"));
     w.create_pool(&b, &["uusdc", "uusdt"], &[6, 6], f0.clone(), CP, Some("zerofeeextra2"), &sorted(extra1));
     w.create_pool(&b, &["uusdc", "uusdt"], &[6, 6], f0.clone(), CP, Some("zerofee"), &ok3);
+    // "p.1" names the generated pool, not the pool somebody called p.1 (stored as o.p.1)
+    w.update_config(&o, Some(pm::FeatureToggle { pool_identifier: "p.1".into(), swaps_enabled: Some(false), deposits_enabled: None, withdrawals_enabled: None }), None, &[], "toggle p.1");
+    w.update_config(&o, Some(pm::FeatureToggle { pool_identifier: "o.p.1".into(), swaps_enabled: None, deposits_enabled: Some(false), withdrawals_enabled: None }), None, &[], "toggle o.p.1");
+    w.update_config(&o, Some(pm::FeatureToggle { pool_identifier: "1".into(), swaps_enabled: Some(false), deposits_enabled: None, withdrawals_enabled: None }), None, &[], "toggle 1 (no such pool: o.1 is another name)");
     // a waived creation fee in the denom the token factory charges in, while the contract holds that denom as a reserve:
     // the token-factory fee is still due in full
     if let Some(tf) = w.s.cfg.tf_fee.first().cloned() {
@@ -494,6 +500,28 @@ fn sc_swaps_and_routes(t: &mut Tracer) {
         w.route(&tr, &r3, &[coin(amt, "uusd")], Some(1), Some(&rc), half);
         w.route(&tr, &rr, &[coin(amt, "uusdc")], None, None, half);
         w.route(&tr, &back, &[coin(amt.min(100_000), "uom")], None, None, half);
+    }
+    // half of an earlier single-asset deposit, offered as an ordinary swap on the same pool by somebody else: an ordinary swap
+    {
+        let dep = w.user(1);
+        w.provide(&dep, "o.cp1", &[coin(20_000, "uusdc")], None, None, None, None, half);
+        w.swap(&tr, "o.cp1", &[coin(10_000, "uusdc")], "uusdt", None, half, None);
+        w.provide(&dep, "o.ss1", &[coin(20_001, "uusd")], None, None, None, None, half);
+        w.swap(&tr, "o.ss1", &[coin(10_000, "uusd")], "uusdc", None, half, None);
+    }
+    // the owner points the fee collector at an account that trades: its own swaps, with and without another receiver, and its
+    // routes pay the protocol fee to it like anybody else's
+    {
+        let o = w.user(0);
+        w.next_fee_collector = Some(tr.clone());
+        w.update_config(&o, None, None, &[], "fee collector := the trader");
+        w.swap(&tr, "o.cp1", &[coin(1_000_000, "uusdc")], "uusdt", None, half, None);
+        w.swap(&tr, "o.cp1", &[coin(1_000_000, "uusdt")], "uusdc", None, half, Some(&rc));
+        w.route(&tr, &r2, &[coin(1_000_000, "uusdc")], None, Some(&rc), half);
+        w.swap(&rc, "o.cp1", &[coin(1_000_000, "uusdc")], "uusdt", None, half, None);
+        let fc = w.s.fee.clone();
+        w.next_fee_collector = Some(fc);
+        w.update_config(&o, None, None, &[], "fee collector back");
     }
     // a pool visited twice in the same direction with another pool in between (priced on its current reserves both times),
     // on a constant-product and on a stableswap pool
